@@ -2,6 +2,7 @@ import AvroModel.Impl.Ser
 import AvroModel.Impl.De
 import AvroModel.Impl.SchemaParse
 import AvroModel.Impl.SchemaRender
+import AvroModel.Impl.Derive
 /-
 Line protocol (DESIGN.md 4.2): whitespace-separated tokens in prefix notation with explicit
 counts; strings and byte strings are hex with an `x` prefix (`x` alone is the empty string).
@@ -306,6 +307,72 @@ def pDeOutcome : P (Except DeErr (Out × Nat)) := do
     | _ => pure (.error .custom)
   | "panic" | "abort" => pure (.error .panic)
   | t => throw s!"unknown outcome {t}"
+
+/-! ### Derive programs (C20) -/
+section DeriveParse
+open Avro.Impl.Derive
+
+def pOptStr : P (Option String) := do
+  match (← peek) with
+  | some "-" => do let _ ← tok; pure none
+  | _ => do pure (some (← pStr))
+
+partial def pTy : P Ty := do
+  match (← tok) with
+  | "unit" => pure .unit | "bool" => pure .bool
+  | "i8" => pure .i8 | "i16" => pure .i16 | "i32" => pure .i32 | "i64" => pure .i64
+  | "u16" => pure .u16 | "u32" => pure .u32 | "u64" => pure .u64 | "usize" => pure .usize
+  | "f32" => pure .f32 | "f64" => pure .f64
+  | "string" => pure .string | "str" => pure .str
+  | "bytevec" => pure .byteVec | "byteslice" => pure .byteSlice
+  | "bytearray" => do pure (.byteArray (← pNat))
+  | "vec" => do pure (.vec (← pTy))
+  | "option" => do pure (.option (← pTy))
+  | "hashmap" => do pure (.hashMap (← pTy))
+  | "btreemap" => do pure (.btreeMap (← pTy))
+  | "ptr" => do pure (.ptr (← pTy))
+  | "named" => do let id ← pNat; let args ← pList pTy; pure (.named id args)
+  | "param" => do pure (.param (← pNat))
+  | t => throw s!"unknown type token {t}"
+
+def pField : P Field := do
+  let name ← pStr
+  let ty ← pTy
+  match (← tok) with
+  | "-" => pure { name, ty }
+  | "logical" => do
+    let l ← pStr
+    let sc ← pOptNat
+    let pr ← pOptNat
+    pure { name, ty, attr := { logical := some l, scale := sc, precision := pr } }
+  | t => throw s!"unknown attr token {t}"
+
+def pDecl : P Decl := do
+  let ident ← pStr
+  let nameOverride ← pOptStr
+  let ns ← pOptStr
+  let nparams ← pNat
+  let modulePath ← pStr
+  let body ← (do
+    match (← tok) with
+    | "record" => do pure (Body.record (← pList pField))
+    | "newtype" => do pure (Body.newtype (← pField))
+    | "unitenum" => do pure (Body.unitEnum (← pList pStr))
+    | "union" => do
+      let vs ← pList (do
+        let ident ← pStr
+        let serdeName ← pStr
+        match (← tok) with
+        | "unit" => pure ({ ident, serdeName, field := none } : Variant)
+        | "field" => do pure ({ ident, serdeName, field := some (← pField) } : Variant)
+        | t => throw s!"unknown variant token {t}")
+      pure (Body.union vs)
+    | t => throw s!"unknown body token {t}" : P Body)
+  pure { ident, nameOverride, ns, nparams, modulePath, body }
+
+def pProg : P Prog := do pure (← pList pDecl).toArray
+
+end DeriveParse
 
 /-- read back-end description: `slice` | `reader <last> <n> <sizes…> <maxAlloc>` -/
 def pBackend (bytes : Bytes → RState) : P (Bytes → RState) := do
